@@ -10,6 +10,7 @@ package main
 
 import (
 	"context"
+	"database/sql"
 	"database/sql/driver"
 	"encoding/json"
 	"fmt"
@@ -45,11 +46,55 @@ func (v CV) Driver() driver.Value {
 	return nil
 }
 
+// Caller says which method a caller uses and with which SelectOptions (nil = none).
+type Caller struct {
+	Kind string     `json:"kind,omitempty"` // "" / "query", "queryrow", "fullscan"
+	Opts *sqlh.Opts `json:"opts,omitempty"`
+}
+
 type Case struct {
 	Table    string        `json:"table"`
 	Contents [][]CV        `json:"contents"`
 	Filters  []sqlh.Filter `json:"filters"`
+	Callers  []Caller      `json:"callers,omitempty"` // parallel to Filters; missing = Query without options
 	Origin   string        `json:"origin"`
+}
+
+func (c Case) caller(i int) Caller {
+	if i < len(c.Callers) {
+		return c.Callers[i]
+	}
+	return Caller{}
+}
+
+// optsOf: the options the method finally passes on (FullScanQuery always passes options).
+func (cl Caller) effectiveOpts() *sqlh.Opts {
+	if cl.Kind == "fullscan" && cl.Opts == nil {
+		return &sqlh.Opts{AllowNoIndex: true}
+	}
+	return cl.Opts
+}
+
+var optsCatalogue = []*sqlh.Opts{
+	{}, {Limit: 1}, {Limit: 2}, {Limit: 1, AllowNoIndex: true}, {AllowNoIndex: true}, {OrderBy: "id"}, {OrderBy: "id DESC", Limit: 1},
+	{OrderBy: "id", Limit: 2, AllowNoIndex: true}, {ForUpdate: true}, {ForUpdate: true, Limit: 1}, {UseIdx: []string{"PRIMARY"}},
+	{ForceIdx: []string{"PRIMARY"}, Limit: 2}, {Where: "id > ?", Values: []int64{1}}, {Where: "id > ?", Values: []int64{0}, Limit: 1},
+}
+
+func genCaller(g *sqlh.Gen) Caller {
+	var cl Caller
+	switch k := g.R.Intn(100); {
+	case k < 70:
+	case k < 85:
+		cl.Kind = "queryrow"
+	default:
+		cl.Kind = "fullscan"
+	}
+	if g.R.Chance(30) {
+		o := *optsCatalogue[g.R.Intn(len(optsCatalogue))]
+		cl.Opts = &o
+	}
+	return cl
 }
 
 // ---- generator ----
@@ -166,6 +211,7 @@ func genCase(g *sqlh.Gen) Case {
 			}
 		}
 		c.Filters = append(c.Filters, f)
+		c.Callers = append(c.Callers, genCaller(g))
 	}
 	return c
 }
@@ -212,13 +258,60 @@ func denotesNull(c *sqlh.ColDesc, v sqlh.GV) bool {
 
 // ---- running ----
 
+// callResult: code 0 = rows delivered, 1 = sql.ErrNoRows, 2 = "expected no more than 1 result", 3 = another error.
+type callResult struct {
+	Code int
+	Rows []int
+	Err  string
+}
+
 type runResult struct {
-	singleRows  [][]int
-	singleLog   []fakesql.Entry
-	batchedRows [][]int
-	batchedLog  []fakesql.Entry
-	arrival     [][]int
-	errs        []string
+	single     []callResult
+	singleLog  []fakesql.Entry
+	batched    []callResult
+	batchedLog []fakesql.Entry
+	arrival    [][]int
+	errs       []string
+}
+
+func mkCall(t *sqlh.TableDesc, cl Caller) sqlh.Call {
+	opts := func() *sqlgen.SelectOptions { return cl.Opts.Go() }
+	return func(ctx context.Context, db *sqlgen.DB, f sqlgen.Filter) ([]interface{}, error) {
+		switch cl.Kind {
+		case "queryrow":
+			out := t.NewResultRow()
+			if err := db.QueryRow(ctx, out, f, opts()); err != nil {
+				return nil, err
+			}
+			return []interface{}{reflect.ValueOf(out).Elem().Interface()}, nil
+		case "fullscan":
+			out := t.NewResultSlice()
+			if err := db.FullScanQuery(ctx, out, f, opts()); err != nil {
+				return nil, err
+			}
+			var rows []interface{}
+			s := reflect.ValueOf(out).Elem()
+			for k := 0; k < s.Len(); k++ {
+				rows = append(rows, s.Index(k).Interface())
+			}
+			return rows, nil
+		}
+		return sqlh.QueryCall(t, opts)(ctx, db, f)
+	}
+}
+
+func classify(err error, pt string, rows []int) callResult {
+	switch {
+	case pt != "":
+		return callResult{Code: 3, Err: "panic: " + pt}
+	case err == nil:
+		return callResult{Code: 0, Rows: rows}
+	case err == sql.ErrNoRows:
+		return callResult{Code: 1, Rows: []int{}}
+	case strings.Contains(err.Error(), "expected no more than 1 result"):
+		return callResult{Code: 2, Rows: []int{}}
+	}
+	return callResult{Code: 3, Err: err.Error()}
 }
 
 func pkOf(t *sqlh.TableDesc, row interface{}) string {
@@ -286,50 +379,67 @@ func runCase(c Case) (res runResult, fatal string) {
 	}
 	// stand-alone
 	ctx := context.Background()
+	calls := make([]sqlh.Call, len(filters))
+	expect := 0
 	for i := range filters {
-		out := t.NewResultSlice()
-		e, p := sqlh.Safely(func() error { return env.DB.Query(ctx, out, filters[i], nil) })
-		if e != nil || p != "" {
-			res.errs = append(res.errs, fmt.Sprintf("stand-alone caller %d: %v %s", i, e, p))
+		calls[i] = mkCall(t, c.caller(i))
+		if c.caller(i).effectiveOpts() == nil {
+			expect++
 		}
+	}
+	for i := range filters {
 		var rows []interface{}
-		s := reflect.ValueOf(out).Elem()
-		for k := 0; k < s.Len(); k++ {
-			rows = append(rows, s.Index(k).Interface())
+		e, p := sqlh.Safely(func() error {
+			var err error
+			rows, err = calls[i](ctx, env.DB, filters[i])
+			return err
+		})
+		r := classify(e, p, idx(rows))
+		if r.Code == 3 {
+			res.errs = append(res.errs, fmt.Sprintf("stand-alone caller %d: %s", i, r.Err))
 		}
-		res.singleRows = append(res.singleRows, idx(rows))
+		res.single = append(res.single, r)
 	}
 	res.singleLog = env.Srv.Statements()
 	env.Srv.ResetLog()
-	// batched
-	br := sqlh.RunBatched(env.DB, t, filters)
+	// on a batching context, concurrently
+	dbs := make([]*sqlgen.DB, len(filters))
+	for i := range dbs {
+		dbs[i] = env.DB
+	}
+	br := sqlh.RunBatchedCalls(dbs, t, filters, expect, calls)
 	res.batchedLog = env.Srv.Statements()
 	res.arrival = br.Arrival
 	for i := range filters {
-		if br.Errs[i] != nil || br.Panics[i] != "" {
-			res.errs = append(res.errs, fmt.Sprintf("batched caller %d: %v %s", i, br.Errs[i], br.Panics[i]))
+		r := classify(br.Errs[i], br.Panics[i], idx(br.Rows[i]))
+		if r.Code == 3 {
+			res.errs = append(res.errs, fmt.Sprintf("batched caller %d: %s", i, r.Err))
 		}
-		res.batchedRows = append(res.batchedRows, idx(br.Rows[i]))
+		res.batched = append(res.batched, r)
 	}
 	return res, ""
 }
 
-func coqIdx(xs [][]int) string {
+func coqResults(xs []callResult) string {
 	out := make([]string, len(xs))
-	for i, l := range xs {
-		ys := make([]string, len(l))
-		for j, k := range l {
+	for i, r := range xs {
+		ys := make([]string, len(r.Rows))
+		for j, k := range r.Rows {
 			ys[j] = fmt.Sprint(k)
 		}
-		out[i] = vh.CoqList(ys)
+		out[i] = fmt.Sprintf("(%d, %s)", r.Code, vh.CoqList(ys))
 	}
 	return vh.CoqList(out)
+}
+
+func sameResult(a, b callResult) bool {
+	return a.Code == b.Code && reflect.DeepEqual(append([]int{}, a.Rows...), append([]int{}, b.Rows...))
 }
 
 func main() {
 	o := vh.ParseFlags()
 	run := vh.NewRun("C10", o)
-	run.Rule = "one case = (table of a 3-table catalogue, 3-10 random rows incl. NULLs, 2-7 filters over 1-3 column sets of the case with values taken from the rows: 62% the column's exact Go type, 16% pointer to it, 22% another Go type denoting the same column value; empty filters 6%, repeated filters 12%); each filter is run on its own and as one of the concurrent batched callers; non-trivial = at least two callers were combined into one statement and some caller received at least one row; distinct by JSON of the case"
+	run.Rule = "one case = (table of a 3-table catalogue, 3-10 random rows incl. NULLs, 2-7 callers with filters over 1-3 column sets of the case and values taken from the rows: 62% the column's exact Go type, 16% pointer to it, 22% another Go type denoting the same column value; empty filters 6%, repeated filters 12%; each caller uses Query 70% / QueryRow 15% / FullScanQuery 15% and in 30% SelectOptions from a catalogue of Limit, OrderBy, AllowNoIndex, ForUpdate, index hints, free-text Where and combinations); every call is made on its own and as one of the concurrent callers on a batching context; non-trivial = at least two callers were combined into one statement and some caller received at least one row; distinct by JSON of the case"
 	r := vh.NewRng(o.Seed)
 
 	var cases []Case
@@ -396,7 +506,7 @@ func main() {
 		}
 
 		for i := range c.Filters {
-			for _, k := range append(append([]int{}, res.singleRows[i]...), res.batchedRows[i]...) {
+			for _, k := range append(append([]int{}, res.single[i].Rows...), res.batched[i].Rows...) {
 				if k < 0 {
 					bad = true
 				}
@@ -410,10 +520,10 @@ func main() {
 		// ---- oracle ----
 		anyRows, anyKnown := false, false
 		for i, f := range c.Filters {
-			if len(res.singleRows[i]) > 0 {
+			if len(res.single[i].Rows) > 0 {
 				anyRows = true
 			}
-			if reflect.DeepEqual(res.singleRows[i], res.batchedRows[i]) {
+			if sameResult(res.single[i], res.batched[i]) {
 				continue
 			}
 			sig := "c10-batched-rows-differ"
@@ -431,6 +541,10 @@ func main() {
 			case !typed:
 				sig = "c10-batch-matcher-go-type"
 				anyKnown = true
+			case c.caller(i).effectiveOpts() != nil:
+				// a call with SelectOptions gets what its own statement gives: LIMIT, ORDER BY, free text and
+				// locks cannot be served from a fetch combined with other queries
+				sig = "c10-batched-options-result-differs"
 			case null:
 				sig = "c10-batch-null-in"
 			}
@@ -443,16 +557,21 @@ func main() {
 				}
 				knownRecorded++
 			}
-			run.Fail(idx, sig, fmt.Sprintf("caller %d filter %s: alone %v, batched %v (row positions)", i, fj, res.singleRows[i], res.batchedRows[i]), c)
+			oj, _ := json.Marshal(c.caller(i))
+			run.Fail(idx, sig, fmt.Sprintf("caller %d %s filter %s: alone %+v, with batching %+v (code 0 rows / 1 no rows / 2 more than one row; row positions)", i, oj, fj, res.single[i], res.batched[i]), c)
 		}
-		if len(res.batchedLog) != len(res.arrival) {
-			run.Fail(idx, "c10-statements-per-invocation", fmt.Sprintf("%d invocations of the batch function, %d statements", len(res.arrival), len(res.batchedLog)), c)
+		inBatch := 0
+		for _, b := range res.arrival {
+			inBatch += len(b)
+		}
+		if want := len(res.arrival) + len(c.Filters) - inBatch; len(res.batchedLog) != want {
+			run.Fail(idx, "c10-statements-per-invocation", fmt.Sprintf("%d invocations of the batch function combining %d of %d callers, but %d statements", len(res.arrival), inBatch, len(c.Filters), len(res.batchedLog)), c)
 		}
 		if len(res.singleLog) != len(c.Filters) {
 			run.Fail(idx, "c10-statements-unbatched", fmt.Sprintf("%d stand-alone queries, %d statements", len(c.Filters), len(res.singleLog)), c)
 		}
-		totalCallers += len(c.Filters)
-		totalStatements += len(res.batchedLog)
+		totalCallers += inBatch
+		totalStatements += len(res.arrival)
 
 		// ---- bookkeeping ----
 		run.Hist("table:" + c.Table)
@@ -478,6 +597,21 @@ func main() {
 				run.Hist("filter:empty")
 			}
 		}
+		for i := range c.Filters {
+			cl := c.caller(i)
+			k := cl.Kind
+			if k == "" {
+				k = "query"
+			}
+			if o := cl.effectiveOpts(); o != nil {
+				run.Hist("call:" + k + "+options")
+				if o.Limit > 0 && len(res.single[i].Rows) >= o.Limit && o.Where == "" {
+					run.Hist("options:limit-cuts-rows")
+				}
+			} else {
+				run.Hist("call:" + k)
+			}
+		}
 		run.Hist(fmt.Sprintf("shapes:%d", len(shapes)))
 		if anyKnown {
 			run.Hist("case:known-matcher-class-observed")
@@ -495,7 +629,7 @@ func main() {
 			for _, e := range res.batchedLog {
 				st = append(st, e.SQL+" "+fmt.Sprint(e.Args))
 			}
-			run.Sample(map[string]interface{}{"case": c, "batched_statements": st, "rows_per_caller": res.batchedRows, "arrival": res.arrival})
+			run.Sample(map[string]interface{}{"case": c, "batched_statements": st, "results_per_caller": res.batched, "arrival": res.arrival})
 		}
 
 		if searching {
@@ -520,8 +654,13 @@ func main() {
 			}
 			rows[i] = t.CoqStored(dv)
 		}
-		terms = append(terms, fmt.Sprintf("(%d, mk_c10 %s %s %s %s %s %s %s %s)", idx, t.Coq(), vh.CoqList(fs),
-			sqlh.CoqArrival(res.arrival), vh.CoqList(rows), bev, coqIdx(res.batchedRows), sev, coqIdx(res.singleRows)))
+		cls := make([]string, len(c.Filters))
+		for i := range c.Filters {
+			cl := c.caller(i)
+			cls[i] = fmt.Sprintf("(mk_caller %s %s)", vh.CoqBool(cl.Kind == "queryrow"), cl.effectiveOpts().Coq())
+		}
+		terms = append(terms, fmt.Sprintf("(%d, mk_c10 %s %s %s %s %s %s %s %s %s)", idx, t.Coq(), vh.CoqList(fs), vh.CoqList(cls),
+			sqlh.CoqArrival(res.arrival), vh.CoqList(rows), bev, coqResults(res.batched), sev, coqResults(res.single)))
 		if len(terms) >= shard {
 			flush()
 		}
